@@ -20,16 +20,20 @@ def replay_emit(chk, e, D, M, kind, real_t, h):
     """two markers on the lattice, spreads in the emitted order with unit force on marker mf."""
     mk = e["mk"]
     N = 2
+    # the model's grid is small and cubic; the real grid is NON-cubic (nz, ny, nx) and the whole configuration is translated
+    # (the operators are translation invariant) by `shift` cells per physical axis, alternately to the near and the far end
+    gshape = (9, 14) if D == 2 else (8, 11, 15)          # array order (.., y, x)
+    far = (sum(m["i"][0] for m in mk) + e["mf"]) % 2 == 0
+    shift = [(gshape[D - 1 - k] - 7) if far else 0 for k in range(D)]   # physical axis k lives on array axis D-1-k
     pos = np.empty((D, N), dtype=real_t)
     for n, m in enumerate(mk):
         for k in range(D):
-            pos[k, n] = real_t((m["i"][k] + m["r"][k] / M) * h + h / 2)
-    grid = 8
+            pos[k, n] = real_t((m["i"][k] + shift[k] + m["r"][k] / M) * h + h / 2)
     c = interp.comm(D, h, N, real_t, kind, 1)
     idx, w = interp.support_and_weights(c, pos, D, real_t)
     F = np.zeros(N, dtype=real_t)
     F[e["mf"] - 1] = 1
-    eul = np.zeros((grid,) * D, dtype=real_t)
+    eul = np.zeros(gshape, dtype=real_t)
     # the real kernel spreads ALL markers of the set per call; the emitted order 1,2,1 with a unit force on one
     # marker is realised by calling it once per entry of the order with only that marker's force switched on
     for m in e["order"]:
@@ -37,7 +41,7 @@ def replay_emit(chk, e, D, M, kind, real_t, h):
         Fm[m - 1] = F[m - 1]
         c.lagrangian_to_eulerian_grid_interpolation_kernel(eul_grid_field=eul, lag_grid_field=Fm, interp_weights=w, nearest_eul_grid_index_to_lag_grid=idx)
     phi = interp.PHI[kind]
-    want = np.zeros((grid,) * D)
+    want = np.zeros(gshape)
     for cell in e["cells"]:
         v = 0.0
         for t in cell["w"]:
@@ -50,7 +54,7 @@ def replay_emit(chk, e, D, M, kind, real_t, h):
                 wv *= phi(d) / h
             v += t["n"] * wv
         # spec cells are indexed by physical axis (x first); arrays are (.., y, x)
-        want[tuple(reversed(cell["c"]))] = v
+        want[tuple(reversed([ci + sh for ci, sh in zip(cell["c"], shift)]))] = v
     eps = float(np.finfo(real_t).eps)
     d = np.abs(eul.astype(float) - want).max()
     if d > 64 * eps / h**D:
@@ -59,16 +63,22 @@ def replay_emit(chk, e, D, M, kind, real_t, h):
 
 
 def adjoint_on_code(chk, D, kind, real_t, h, rng, N, ncomp, clustered):
-    grid = 12
+    gshape = [(9, 17), (16, 10)][int(rng.integers(0, 2))] if D == 2 else [(8, 11, 17), (16, 9, 8), (9, 15, 10)][int(rng.integers(0, 3))]
+    ext = np.array([gshape[D - 1 - k] for k in range(D)])       # extent per PHYSICAL axis (x first)
     c = interp.comm(D, h, N, real_t, kind, ncomp)
     if clustered:
-        base = rng.integers(3, grid - 4, D)
+        base = np.array([rng.integers(2, n - 3) for n in ext])
+        # half of the clustered cases sit at the far end of every axis
+        if rng.random() < 0.5:
+            base = ext - 4
         pos = ((base[:, None] + rng.random((D, N))) * h + h / 2).astype(real_t)
         pos[:, -1] = pos[:, 0]  # a duplicated marker
     else:
-        pos = ((rng.integers(2, grid - 3, (D, N)) + rng.random((D, N))) * h + h / 2).astype(real_t)
+        cells = np.stack([rng.integers(2, n - 3, N) for n in ext])
+        cells[:, 0] = ext - 4                                     # one marker as far along every axis as admissible
+        pos = ((cells + rng.random((D, N))) * h + h / 2).astype(real_t)
     idx, w = interp.support_and_weights(c, pos, D, real_t)
-    shape = ((ncomp,) if ncomp > 1 else ()) + (grid,) * D
+    shape = ((ncomp,) if ncomp > 1 else ()) + tuple(gshape)
     u = rng.integers(-4, 5, shape).astype(real_t)
     F = rng.integers(-4, 5, ((ncomp, N) if ncomp > 1 else (N,))).astype(real_t)
     Iu = np.zeros_like(F)
@@ -93,12 +103,12 @@ def adjoint_on_code(chk, D, kind, real_t, h, rng, N, ncomp, clustered):
         for k in range(D):
             ax = D - 1 - k
             sh = [1] * D
-            sh[ax] = grid
-            coord = ((np.arange(grid) + 0.5) * h).reshape(sh)
-            sp = spread.reshape((ncomp if ncomp > 1 else 1,) + (grid,) * D)
+            sh[ax] = gshape[ax]
+            coord = ((np.arange(gshape[ax]) + 0.5) * h).reshape(sh)
+            sp = spread.reshape((ncomp if ncomp > 1 else 1,) + tuple(gshape))
             mom = (sp * coord).reshape(sp.shape[0], -1).sum(axis=1) * h**D
             want = (F.astype(float).reshape(sp.shape[0], -1) * pos[k].astype(float)).sum(axis=1)
-            if np.abs(mom - want).max() > 256 * eps * (np.abs(F).sum() + 1) * grid * h:
+            if np.abs(mom - want).max() > 256 * eps * (np.abs(F).sum() + 1) * max(gshape) * h:
                 errs.append(f"first moment of the spread force along axis {k}: {mom} != {want}")
     return errs
 
